@@ -43,9 +43,9 @@ import (
 
 	"verif/lib/cat"
 	"verif/lib/ev"
-	"verif/lib/topo"
 	"verif/lib/scen"
 	"verif/lib/schedrun"
+	"verif/lib/topo"
 )
 
 func chainFamily(sc string) string {
@@ -1254,7 +1254,7 @@ func checkRingScenes(r *ev.Run) {
 				}
 				comps = append(comps, out)
 			}
-			add(cat.Box(model3d.XYZ(-5, -5, -5), model3d.XYZ(5, 5, 5)))       // shell
+			add(cat.Box(model3d.XYZ(-5, -5, -5), model3d.XYZ(5, 5, 5)))         // shell
 			add(cat.Box(model3d.XYZ(-0.6, -0.7, -2), model3d.XYZ(0.7, 0.6, 2))) // bar through the ring (ring axis = z before the permutation)
 			add(cat.Torus(12, 6, 2.5, 0.6))                                     // ring around the bar
 			wantParent := []int{-1, 0, 0}
